@@ -140,6 +140,8 @@ func ParseField(v reflect.Value, bytes []byte, params fieldParameters) error {
 	if int64(talOff)+tal.len > int64(len(bytes)) {
 		return fmt.Errorf("type value out of range")
 	}
+	// the element ends after tal.len contents octets
+	bytes = bytes[:int64(talOff)+tal.len]
 
 	// EXPLICIT tag: the contents are the complete encoding of the underlying type.
 	if params.tagNumber != nil && params.explicitTag {
